@@ -174,8 +174,12 @@ def mini_lex(s):
             elif cn:
                 out.append(('c', cn[0]))
             else:
-                out += [('v', c) for c in w]
+                for c in w:
+                    k = [k for k, v in CONSTS.items() if v == c.lower()]
+                    out.append(('c', k[0]) if k else ('v', c))
             i = j
+        elif ch in 'πτϕ':
+            out.append(('c', {'π': 'Pi', 'τ': 'Tau', 'ϕ': 'Phi'}[ch])); i += 1
         elif ch == '(':
             out.append(('lp',)); i += 1
         elif ch == ')':
@@ -193,7 +197,7 @@ def mini_lex(s):
 #   unary    ::= - unary | juxt                       the minus applies to the following factor only
 #   juxt     ::= power { power }                      juxtaposition = multiplication, tighter than * /
 #   power    ::= postfix { ^ exponent }               left-associative (unit test test_valid_multiple_exponents)
-#   exponent ::= - unary | postfix
+#   exponent ::= - exponent | postfix                 a signed exponent is a signed atom: 2^-x^2 = (2^-x)^2
 #   postfix  ::= atom { ! }
 #   atom     ::= number | variable | constant | ( sum ) | function ( sum )
 # trees: ('N',x) ('V',name) ('C',name) ('F',fn,e) ('P','Sub',e) ('Q','Fac',e) ('B',op,paren,l,r)
@@ -242,13 +246,14 @@ class Reader:
         e = self.postfix()
         while self.isop(('Caret',)):
             self.i += 1
-            if self.isop(('Sub',)):
-                self.i += 1
-                r = ('P', 'Sub', self.unary())
-            else:
-                r = self.postfix()
-            e = ('B', 'Caret', False, e, r)
+            e = ('B', 'Caret', False, e, self.exponent())
         return e
+
+    def exponent(self):
+        if self.isop(('Sub',)):
+            self.i += 1
+            return ('P', 'Sub', self.exponent())
+        return self.postfix()
 
     def postfix(self):
         e = self.atom()
@@ -474,6 +479,14 @@ C_INCONS = 'harness: the crate\'s own entry points disagree with each other'
 C_SELF = 'ORACLE-SELF-CHECK: the reference reader does not read back the generator\'s own rendering'
 
 
+def outside_operator_list(d):
+    """the property speaks about + - * / ^, unary minus, !, functions, constants, juxtaposition: an input with % or an
+    explicit · (token or tree node) is compared with the model only"""
+    if any(is_op(t, ('Rem', 'CDot')) for t in d.get('tokens', [])):
+        return True
+    return any(s[0] in 'BPQ' and s[1] in ('Rem', 'CDot') for s in subtrees(d['unfolded']))
+
+
 def violated_clauses(case, impl):
     cmd = case.line.split(' ', 1)[0]
     d = parse_result(impl)
@@ -486,6 +499,8 @@ def violated_clauses(case, impl):
         out.append(C_INCONS)
     if 'unfolded' not in d:
         return out, d                          # an error value: nothing more is promised
+    if outside_operator_list(d):
+        return out, d                          # % and an explicit · : correspondence only
     pts = envs(case.line[:64])
     u, f = d['unfolded'], d['folded']
     if 'tokens' in d:
@@ -527,18 +542,19 @@ def py_fold(e):
         return ('N', 0.0)
     if op == 'Caret' and z(r, 0.0):
         return ('N', 1.0)
-    if op == 'Caret' and z(l, 0.0):
+    kp = lambda t: ('B', t[1], True, t[3], t[4]) if (p and t[0] == 'B') else t
+    if op == 'Caret' and z(l, 0.0) and r[0] == 'N':
         return ('N', 0.0)
     if op == 'Add' and z(l, 0.0):
-        return r
+        return kp(r)
     if op == 'Add' and z(r, 0.0):
-        return l
+        return kp(l)
     if op == 'Sub' and z(r, 0.0):
-        return l
+        return kp(l)
     if op == 'Sub' and z(l, 0.0):
         return ('P', 'Sub', py_fold(r))
     if op == 'Div' and z(r, 1.0):
-        return l
+        return kp(l)
     return ('B', op, p, l, r)
 
 
@@ -555,215 +571,103 @@ def is_op(t, names):
     return t is not None and t[0] == 'o' and t[1] in names
 
 
-def cls_unary_swallow(ts):
-    """F16a: a prefix minus standing directly after one of / % ^ · * and followed, before the next + or binary - or
-    closing parenthesis of its level, by an explicit * / % or ·"""
-    for i, t in enumerate(ts):
-        if is_op(t, ('Sub',)) and i > 0 and is_op(ts[i - 1], ('Div', 'Rem', 'Caret', 'CDot', 'Mul')):
-            depth, j = 0, i + 1
-            while j < len(ts):
-                u = ts[j]
-                if u == ('lp',):
-                    depth += 1
-                elif u == ('rp',):
-                    depth -= 1
-                    if depth < 0:
-                        break
-                elif depth == 0 and u[0] == 'o':
-                    prefix = is_op(ts[j - 1], tuple(OPS)) and not is_op(ts[j - 1], ('Fac',))
-                    if u[1] in ('Mul', 'Div', 'Rem', 'CDot'):
-                        return True
-                    if u[1] == 'Add' or (u[1] == 'Sub' and not prefix):
-                        break
-                j += 1
-    return False
-
-
-def cls_func_swallow(ts):
-    """F16b: the closing parenthesis of a function argument is directly followed by ^ or !"""
-    for i, t in enumerate(ts):
-        if t[0] == 'f' and i + 1 < len(ts) and ts[i + 1] == ('lp',):
-            depth, j = 0, i + 1
-            while j < len(ts):
-                if ts[j] == ('lp',):
-                    depth += 1
-                elif ts[j] == ('rp',):
-                    depth -= 1
-                    if depth == 0:
-                        break
-                j += 1
-            if j + 1 < len(ts) and is_op(ts[j + 1], ('Caret', 'Fac')):
-                return True
-    return False
-
-
-def before_in_product(ts, i, names):
-    """is one of the operators `names` found left of position i in the same product (same parenthesis level, scanning back
-    to the previous + , binary - or opening parenthesis)?"""
-    depth, j = 0, i - 1
-    while j >= 0:
-        u = ts[j]
-        if u == ('rp',):
-            depth += 1
-        elif u == ('lp',):
-            depth -= 1
-            if depth < 0:
-                return False
-        elif depth == 0 and u[0] == 'o':
-            if u[1] in names:
-                return True
-            prefix = j == 0 or ts[j - 1] == ('lp',) or (is_op(ts[j - 1], tuple(OPS)) and not is_op(ts[j - 1], ('Fac',)))
-            if u[1] == 'Add' or (u[1] == 'Sub' and not prefix):
-                return False
-        j -= 1
-    return False
-
-
-def cls_rem(ts):
-    """F16h: a % with an explicit * or / to its left in the same product"""
-    return any(is_op(t, ('Rem',)) and before_in_product(ts, i, ('Mul', 'Div')) for i, t in enumerate(ts))
-
-
-def cls_cdot(ts):
-    """F16i: an explicit · with a / or % to its left in the same product"""
-    return any(is_op(t, ('CDot',)) and before_in_product(ts, i, ('Div', 'Rem')) for i, t in enumerate(ts))
-
-
-def cls_zero_pow(u):
-    """F16d: a power whose folded base is the number 0 and whose folded exponent is not the number 0"""
-    for s in subtrees(u):
-        if s[0] == 'B' and s[1] == 'Caret':
-            l, r = py_fold(s[3]), py_fold(s[4])
-            if l[0] == 'N' and l[1] == 0.0 and not (r[0] == 'N' and r[1] == 0.0):
-                return True
-    return False
-
-
 def leftmost_is_number(e):
     while True:
         if e[0] == 'N':
             return True
         if e[0] == 'B' and not e[2]:
             e = e[3]
-        elif e[0] == 'Q':
+        elif e[0] == 'Q' and e[2][0] != 'P':
             e = e[2]
         else:
             return False
 
 
-def open_right_prefix(e):
-    """the printed text of e ends in the operand of a prefix minus (which re-reading extends over what follows)"""
-    while e[0] == 'B' and not e[2]:
-        e = e[4]
-    return e[0] == 'P'
+def implied_form(e):
+    """Display prints this product / power without spaces (2x, 2π, 2x^2, x2, x^2)"""
+    _, op, _, l, r = e
+    if op == 'Mul':
+        if l[0] == 'N' and r[0] in 'VC':
+            return True
+        if l[0] == 'N' and r[0] == 'B' and r[1] == 'Caret' and (r[2] or r[3][0] != 'N'):
+            return True
+        return l[0] in 'VC' and r[0] == 'N'
+    if op == 'Caret':
+        return l[0] in 'VC' and r[0] == 'N'
+    return False
 
 
-def needs_paren(e):
-    """an operand printed without parentheses although the printed operator sequence needs them:
-    returns the set of reasons found in tree e (the tree that was printed)"""
-    why = set()
-    for s in subtrees(e):
-        if s[0] == 'B':
-            _, op, _, l, r = s
-            pb = BP.get(op, 0)
-            for side, c in (('l', l), ('r', r)):
-                if c[0] == 'B' and not c[2]:
-                    cb = BP.get(c[1], 0)
-                    if (side == 'l' and cb < pb) or (side == 'r' and cb <= pb):
-                        if side == 'r' and c[1] == 'Mul' and op in ('Div', 'Rem', 'Mul'):
-                            why.add('juxt')          # a product bound by juxtaposition, printed with " * "
-                        else:
-                            why.add('paren')
-                if c[0] == 'P' and side == 'l' and pb >= 3:
-                    why.add('prefix')
-                if c[0] == 'F' and side == 'l' and op == 'Caret':
-                    why.add('func')
-            if pb >= 2 and l[0] == 'B' and not l[2] and open_right_prefix(l):
-                why.add('prefix')
-            if op == 'Mul' and l[0] == 'N' and r[0] == 'B' and r[1] == 'Caret' and not r[2]:
-                if leftmost_is_number(r[3]):
-                    why.add('numnum')
-                if r[3][0] == 'P':
-                    why.add('prefix')
-        elif s[0] == 'Q':
-            c = s[2]
-            if c[0] == 'P':
-                why.add('prefix')
-            if c[0] == 'F':
-                why.add('func')
-            if c[0] == 'B' and not c[2]:
+def eff_power(e):
+    return 4 if (e[1] == 'Mul' and implied_form(e)) else BP.get(e[1], 0)
+
+
+def display_issues(e, ctx=0, why=None):
+    """where does the printed text of tree e (read again with minimum binding power ctx) lose structure?
+    reasons: numnum (a number glued to a number), juxt (a product printed with " * " where it was bound tighter),
+    prefix / prefixmul (the operand of a prefix minus printed without the parentheses it needs), paren (anything else)"""
+    why = set() if why is None else why
+    k = e[0]
+    if k == 'F':
+        display_issues(e[2], 0, why)
+    elif k == 'Q':
+        c = e[2]
+        if c[0] == 'B' and not c[2]:
+            why.add('paren')
+        display_issues(c, 0 if c[0] == 'P' else 6, why)
+    elif k == 'P':
+        m = max(ctx, 2)
+        v = e[2]
+        if v[0] == 'B' and not v[2] and eff_power(v) < m:
+            why.add('prefixmul' if v[1] == 'Mul' else 'prefix')
+        display_issues(v, m, why)
+    elif k == 'B':
+        _, op, paren, l, r = e
+        c0 = 0 if paren else ctx
+        pw = BP.get(op, 0)
+        if op == 'Mul' and implied_form(e) and l[0] == 'N' and r[0] == 'B':
+            if not r[2] and leftmost_is_number(r[3]):
+                why.add('numnum')
+            display_issues(r, 5, why)
+            return why
+        if l[0] == 'P' and op == 'Caret':
+            display_issues(l, 0, why)
+        else:
+            if l[0] == 'B' and not l[2] and eff_power(l) < pw:
                 why.add('paren')
-        elif s[0] == 'P':
-            c = s[2]
-            if c[0] == 'B' and not c[2] and BP.get(c[1], 0) < 2:
-                why.add('paren')
+            display_issues(l, c0, why)
+        if r[0] == 'B' and not r[2] and eff_power(r) < pw + 1:
+            why.add('juxt' if r[1] == 'Mul' else 'paren')
+        display_issues(r, pw + 1, why)
     return why
 
 
 FINDINGS = {
-    'F16a': 'unary minus swallows a following product: x/-y*z is read as x/(-(y*z)) (operand of a prefix minus is parsed with the fixed minimum power 2.0)',
-    'F16b': 'a function swallows a following ^ or !: sin(x)^2 is read as sin(x^2), sin(x)! as sin(x!) (argument parsed with minimum power 5.0 instead of the parenthesised group only)',
-    'F16c': 'fold_operations drops the paren flag when a rule returns an operand: (0+a*b)^2 folds to a tree printed as a * b ^ 2',
-    'F16d': 'fold rule 0^_ = 0 is wrong where the exponent evaluates to 0: 0^x folds to 0 although x^0 folds to 1 (0^0 = 1 by the code\'s own rule)',
-    'F16e': 'Display prints a prefix minus (written, or made by the fold rule 0-x) without the parentheses it needs before ^ or !: (-x)^2 prints as -x ^ 2 and reads back as -(x^2); x^(0-1)^y prints as x ^ -1 ^ y',
-    'F16f': 'Display juxtaposes number and number: 5*2^3 prints as 52 ^ 3',
-    'F16g': 'Display prints constants as π τ ϕ, which the lexer rejects (UnexpectedChar)',
-    'F16h': '% binds tighter than * and /: 2*3%4 is read as 2*(3%4)',
-    'F16i': 'an explicit · binds tighter than / and %: a/b·c is read as a/(b·c)',
-    'F16j': 'Display prints a product bound by juxtaposition with " * ": x/yz prints as x / y * z and reads back as (x/y)*z',
-    'F16k': 'a variable named e (from a run of letters such as xe) prints as e and reads back as the constant e',
-    'F16l': 'Display of a function call under ^ or !: (sin(x))^2 prints as sin(x) ^ 2 and reads back as sin(x^2) (consequence of F16b)',
+    'F16e': 'Display drops the parentheses of a prefix-minus group (the tree has no flag for them) where the operand is a product or a power in a tighter position: a/(-b*c) prints as a / -b * c and reads back as (a/(-b))*c; x^(-y^z) prints as x ^ -y ^ z (residue of F16e after e901a60)',
+    'F16f': 'Display still glues a coefficient to a power that starts with a number when the base is not a bare Number node: 5*2!^3 prints as 52! ^ 3, 5*2^3^4 as 52 ^ 3 ^ 4 (residue of F16f after e901a60)',
+    'F16j': 'Display prints a product bound by juxtaposition with " * ": x/yz prints as x / y * z and reads back as (x/y)*z (2/-xx prints as 2 / -x * x); needs a precedence-aware printer',
 }
-PRIORITY = ['F16d', 'F16c', 'F16k', 'F16f', 'F16j', 'F16l', 'F16e', 'F16i', 'F16h', 'F16b', 'F16a', 'F16g']
+PRIORITY = ['F16f', 'F16e', 'F16j']
 
 
 def classify(case, impl):
-    """finding ids explaining each violated clause; None if some clause is unexplained"""
+    """finding ids explaining each violated clause; None if some clause is unexplained.  Only Display classes remain:
+    a violation of totality, precedence or folding is never a known finding."""
     clauses, d = violated_clauses(case, impl)
     ids = []
-    ts = d.get('tokens')
+    ts = d.get('tokens') or []
     for c in clauses:
         got = []
-        if c == C_PARSE and ts is not None:
-            if cls_func_swallow(ts):
-                got.append('F16b')
-            if cls_unary_swallow(ts):
-                got.append('F16a')
-            if cls_rem(ts):
-                got.append('F16h')
-            if cls_cdot(ts):
-                got.append('F16i')
-        elif c == C_FOLD:
-            if cls_zero_pow(d['unfolded']):
-                got.append('F16d')
-        elif c in (C_DISP, C_DISP_ERR):
+        if c in (C_DISP, C_DISP_ERR):
             f = d['folded']
-            txt = d['df']
-            if c == C_DISP_ERR:
-                if d['rf'][0] == 'lexerr' and any(s[0] == 'C' and s[1] != 'E' for s in subtrees(f)):
-                    got.append('F16g')
-                if 'numnum' in needs_paren(f):
-                    got.append('F16f')
-            else:
-                why = needs_paren(f)
-                if 'numnum' in why:
-                    got.append('F16f')
-                if 'prefix' in why:
+            why = display_issues(f)
+            minus_group = any(a == ('lp',) and is_op(b, ('Sub',)) for a, b in zip(ts, ts[1:])) or f != d['unfolded']
+            if 'numnum' in why:
+                got.append('F16f')
+            if c == C_DISP:
+                if 'prefix' in why or ('prefixmul' in why and minus_group):
                     got.append('F16e')
-                if 'func' in why:
-                    got.append('F16l')
-                if 'juxt' in why:
-                    got.append('F16j' if 'juxt' in needs_paren(d['unfolded']) else 'F16c')
-                if 'paren' in why:
-                    got.append('F16c')
-                if any(s[0] == 'V' and s[1] in ('e', 'E') for s in subtrees(f)):
-                    got.append('F16k')
-                dts = mini_lex(txt)
-                if dts is not None:
-                    if cls_unary_swallow(dts):
-                        got.append('F16a')
-                    if cls_func_swallow(dts):
-                        got.append('F16l')
+                if 'juxt' in why or ('prefixmul' in why and not minus_group):
+                    got.append('F16j')
         if not got:
             return None, clauses
         ids += got
@@ -984,7 +888,7 @@ def level(s):
             return 1
         if op in ('Mul', 'Div', 'Rem', 'CDot'):
             return 2
-        return 3 if s[3][0] == 'neg' else 5        # a power ending in a signed exponent is open to the right
+        return 5
     if k == 'neg':
         return 3
     if k == 'juxt':
@@ -1025,9 +929,10 @@ def render(s, rng=None, extra=0.0):
         elif op in ('Mul', 'Div', 'Rem', 'CDot'):
             out = sub(s[2], 2) + OPS[op] + sub(s[3], 3)
         else:
-            r = s[3]
-            rt = ('-' + sub(r[1], 3)) if r[0] == 'neg' else sub(r, 6)
-            out = sub(s[2], 5) + '^' + rt
+            r, sign = s[3], ''
+            while r[0] == 'neg':                      # exponent ::= - exponent | postfix
+                r, sign = r[1], sign + '-'
+            out = sub(s[2], 5) + '^' + sign + sub(r, 6)
     if rng is not None and extra > 0 and rng.random() < extra:
         out = '(' + out + ')'
     return out
@@ -1074,8 +979,8 @@ def last_kind(s):
         return last_kind(s[2]) if level(s[2]) >= 5 else 'rp'
     r = s[3]
     if s[1] == 'Caret':
-        if r[0] == 'neg':
-            return last_kind(r[1]) if level(r[1]) >= 3 else 'rp'
+        while r[0] == 'neg':
+            r = r[1]
         return last_kind(r) if level(r) >= 6 else 'rp'
     need = 2 if s[1] in ('Add', 'Sub') else 3
     return last_kind(r) if level(r) >= need else 'rp'
